@@ -85,6 +85,7 @@ const (
 	compoundHeaderOverhead = 2   // Assumed header overhead
 	compoundOverhead       = 2   // Assumed overhead per entry in compoundHeader
 	userMsgOverhead        = 1
+	crcHeaderOverhead      = 5 // hasCrcMsg byte plus the 4 byte checksum prepended for peers speaking protocol >= 5
 	blockingWarning        = 10 * time.Millisecond // Warn if a UDP packet takes this long to process
 	maxPushStateBytes      = 20 * 1024 * 1024
 	maxPushStateNodes      = 1024 * 1024      // Each requires conservatively  ~20 bytes when encoded
@@ -805,6 +806,9 @@ func (m *Memberlist) sendMsg(a Address, msg []byte) error {
 	if m.config.EncryptionEnabled() && m.config.GossipVerifyOutgoing {
 		bytesAvail -= encryptOverhead(m.encryptionVersion())
 	}
+	// The message we piggy back on takes a length slot in the compound
+	// header too, and rawSendMsgPacket may prepend a checksum header.
+	bytesAvail -= compoundOverhead + crcHeaderOverhead
 	extra := m.getBroadcasts(compoundOverhead, bytesAvail)
 
 	// Fast path if nothing to piggypack
